@@ -3,3 +3,7 @@
 
 def check_gadget_codec(rep, factsR, pid):
     return
+
+
+def check_gadget_group_ops(rep, cfgR, pid):
+    return
